@@ -7,7 +7,7 @@ use std::collections::HashMap;
 
 #[test]
 fn verif_witness_search_errors() {
-  let programs: [(&str, &str); 9] = [
+  let programs: [(&str, &str); 14] = [
     ("operand of the wrong type", "class Main { function main(): unit = { let _ = 1 + true; } }"),
     ("wrong number of arguments", "class Main { function f(a: int): int = a function main(): unit = { let _ = Main.f(1, 2); } }"),
     ("unresolved variable", "class Main { function main(): unit = { let _ = nope; } }"),
@@ -17,6 +17,11 @@ fn verif_witness_search_errors() {
     ("integer literal out of range in a sum", "class Main { function main(): unit = { let _ = 1 + 2147483648; } }"),
     ("non-exhaustive match", "class O(A, B) { function f(o: O): int = match o { A -> 1 } } class Main { function main(): unit = {} }"),
     ("syntax error", "class Main { function main(): unit = { let = ; } }"),
+    ("violated type-parameter bound (inferred, type parameter as argument)", "interface Comparable<T> { method compare(other: T): int } class Cmp { function <C: Comparable<C>> compare(v1: C, v2: C): int = v1.compare(v2) } class Pair<T>(val v1: T, val v2: T) { method r(): int = Cmp.compare(this.v1, this.v2) } class Main { function main(): unit = {} }"),
+    ("violated type-parameter bound (explicit type argument)", "interface Comparable<T> { method compare(other: T): int } class Cmp { function <C: Comparable<C>> compare(v1: C, v2: C): int = v1.compare(v2) } class Pair<T>(val v1: T, val v2: T) { method r(): int = Cmp.compare<T>(this.v1, this.v2) } class Main { function main(): unit = {} }"),
+    ("violated type-parameter bound (concrete class)", "interface Comparable<T> { method compare(other: T): int } class Cmp { function <C: Comparable<C>> compare(v1: C, v2: C): int = v1.compare(v2) } class A(val i: int) { } class Main { function main(): unit = { let _ = Cmp.compare(A.init(1), A.init(2)); } }"),
+    ("argument of the wrong type", "class Main { function f(a: int): int = a function main(): unit = { let _ = Main.f(true); } }"),
+    ("wrong return type", "class Main { function f(): int = true function main(): unit = {} }"),
   ];
   for (what, text) in programs {
     let heap = &mut Heap::new();
@@ -30,7 +35,7 @@ fn verif_witness_search_errors() {
       return;
     }
   }
-  println!("WITNESS-SEARCH: no violating history found (9 erroneous programs)");
+  println!("WITNESS-SEARCH: no violating history found (14 erroneous programs)");
 }
 
 // Witness search for unit `loopvars` (C01): self tail calls that permute or shift their parameters; the
